@@ -370,19 +370,27 @@ def run(chk, repo):
         chk.require(len(tees) == 1, "%s: tee idiom not recognised (%d itertools.tee assignments)" % (q, len(tees)))
         t = tees[0]
         tgt = t.targets[0]
-        chk.require(isinstance(tgt, ast.Tuple) and len(tgt.elts) == 2 and all(isinstance(e, ast.Name) for e in tgt.elts),
-                    "%s: tee result is not unpacked into two names" % q)
         nargs = t.value.args
         chk.require(len(nargs) == 1 or (len(nargs) == 2 and isinstance(nargs[1], ast.Constant) and nargs[1].value == 2),
                     "%s: tee count is not 2" % q)
         owner = unparse(nargs[0])
-        a, b = tgt.elts[0].id, tgt.elts[1].id
-        rebinds = [n for n in own_nodes(fn) if isinstance(n, ast.Assign) and any(unparse(x) == owner for x in n.targets)
-                   and isinstance(n.value, ast.Name) and n.value.id in (a, b)]
-        chk.decide(len(rebinds) == 1, "C03.tee", W(q), "owner %s rebound to one tee output" % owner,
-                   why="the original iterator keeps being consumed behind the tee: the copy misses items or sees "
-                       "them twice", node=t)
-        kept = rebinds[0].value.id if rebinds else None
+        # X, b = tee(X): one output goes straight back where the owner was
+        direct = isinstance(tgt, ast.Tuple) and len(tgt.elts) == 2 and sum(1 for e in tgt.elts if unparse(e) == owner) == 1 \
+            and all(isinstance(e, ast.Name) or unparse(e) == owner for e in tgt.elts)
+        chk.require(direct or (isinstance(tgt, ast.Tuple) and len(tgt.elts) == 2 and all(isinstance(e, ast.Name) for e in tgt.elts)),
+                    "%s: tee result is not unpacked into two names" % q)
+        if direct:
+            a, b = [e.id if isinstance(e, ast.Name) else "<owner>" for e in tgt.elts]
+            chk.ok("C03.tee", W(q), "owner %s rebound to one tee output (in the unpacking itself)" % owner, node=t)
+            kept = "<owner>"
+        else:
+            a, b = tgt.elts[0].id, tgt.elts[1].id
+            rebinds = [n for n in own_nodes(fn) if isinstance(n, ast.Assign) and any(unparse(x) == owner for x in n.targets)
+                       and isinstance(n.value, ast.Name) and n.value.id in (a, b)]
+            chk.decide(len(rebinds) == 1, "C03.tee", W(q), "owner %s rebound to one tee output" % owner,
+                       why="the original iterator keeps being consumed behind the tee: the copy misses items or sees "
+                           "them twice", node=t)
+            kept = rebinds[0].value.id if rebinds else None
         rets = [n for n in own_nodes(fn) if isinstance(n, ast.Return) and n.value is not None]
         good_ret = False
         for rnode in rets:
